@@ -26,6 +26,13 @@ impl SignedEntry {
 }
 #[verifier::external_body]
 pub struct ProtocolMessage { _p: u8 }
+/// `store::Query` / `store::fs::QueryIterator`: opaque payloads
+#[verifier::external_body]
+pub struct Query { _p: u8 }
+#[verifier::external_body]
+pub struct QueryIterator { _p: u8 }
+#[verifier::external_body]
+pub struct SyncOutcome { _p: u8 }
 pub type PeerIdBytes = [u8; 32];
 
 /// `InsertError` (src/sync.rs): opaque here (the arms only propagate it), converts into anyhow::Error
@@ -77,6 +84,16 @@ impl Store {
     #[verifier::external_body]
     pub fn get_exact(&mut self, namespace: NamespaceId, author: AuthorId, key: Bytes, include_empty: bool) -> (r: Result<Option<SignedEntry>>)
         ensures store_same(*old(self), *final(self)), r is Ok ==> r->Ok_0 == old(self).spec_exact(namespace, author, key@, include_empty)
+    { unimplemented!() }
+
+    /// Store::get_many (fs.rs: takes a snapshot and builds a QueryIterator; U-tx `snapshot_owned`, U-query-new): ghost log of the calls;
+    /// the result is arbitrary. The snapshot may commit pending writes (U-tx), the live contents and the open set do not change.
+    pub uninterp spec fn get_many_calls(&self) -> Seq<(NamespaceId, Query)>;
+    #[verifier::external_body]
+    pub fn get_many(&mut self, namespace: NamespaceId, query: Query) -> (r: Result<QueryIterator>)
+        ensures
+            final(self).open_set() == old(self).open_set(), final(self).contents() == old(self).contents(),
+            final(self).get_many_calls() == old(self).get_many_calls().push((namespace, query)),
     { unimplemented!() }
 
     /// Store::close_replica (fs.rs; verified in U-cap-import over `open_replicas@`): removes the id from the open set, nothing else
